@@ -8,18 +8,32 @@ From TD Require Import Lib.RunLib Gen.ExchangeSteps Model.ExchangeTimeout.
 Import ListNotations.
 Open Scope Z_scope.
 
-(* (level 0 exchange / 1 mtproto, pfs, dir, k, caller_ms (0 = none), dial_ms, T, bound, observed within) *)
-Definition case := (Z * bool * Z * Z * Z * Z * Z * Z * bool)%type.
+(* ((level 0 exchange / 1 mtproto, pfs, dir, k, caller_ms (0 = none), dial_ms),
+    (skipped -404 frames, gap between them in ms), (T, bound),
+    (observed: returned within bound, observed: returned clearly before T)) *)
+Definition case := ((Z * bool * Z * Z * Z * Z) * (Z * Z) * (Z * Z) * (bool * bool))%type.
 
 Definition ok (c : case) : bool :=
-  let '(level, pfs, dir, k, caller, dial, T, bound, obs) := c in
+  let '(conf, frames, times, obs) := c in
+  let '(level, pfs, dir, k, caller, dial) := conf in
+  let '(n, gap) := frames in
+  let '(T, bound) := times in
+  let '(obs_within, obs_early) := obs in
   let cfg := {| cfg_pfs := if level =? 0 then true else pfs;   (* exchange level: Run gets the caller's ctx as is *)
                 cfg_regen := false;
                 cfg_caller := if caller =? 0 then Inf else Fin caller;
                 cfg_connect_start := 0;
                 cfg_dial_timeout := dial |} in
-  match nth_dir client_steps dir (Z.to_nat k) with
+  (* the PFS connect runs two exchanges on one connection: receive / send number k belongs to
+     operation ((k-1) mod 3) + 1 of the flow *)
+  let k' := (k - 1) mod 3 + 1 in
+  match nth_dir client_steps dir (Z.to_nat k') with
   | None => false
-  | Some op => Bool.eqb (withinb (op_deadline (run_ctx cfg) T 0 (snd op)) bound) obs
+  | Some o =>
+      let d := step_deadline (run_ctx cfg) T 0 n gap o in
+      Bool.eqb (withinb d bound) obs_within &&
+      (* a timer never fires early: if the model's deadline is not below T, the call cannot have
+         returned clearly before T (lower bound; the short-caller cases exercise the other side) *)
+      (if withinb d (T * 8 / 10) then true else negb obs_early)
   end.
 Definition mismatches (cs : list case) : list nat := mismatch_idx ok cs.
